@@ -4,7 +4,7 @@ specs/CollectRunTrace.tla.
 
 usage: drive_collectrun.py <in.json> <out.json>
 in : {"base": <scratch dir>, "seed": n, "universe": <the record CollectRunMC printed>,
-      "cases": [{"id":.., "mf":{..}, "env":{..}, "pre":"..", "raw": bool}], "progress": <path or "">}
+      "cases": [{"id":.., "mf":{..}, "env":{..}, "pre":"..", "raw": bool, "hang": bool}]}
 out: {"traces":[..], "stats":{..}, "r4":[..]}
 
 The world: a generated importable package x01 (SpecSet with four registry points, their implementations built
@@ -26,7 +26,10 @@ import shutil
 import signal as _signal
 import sys
 import threading
+import time
 import traceback
+
+QUIET = 10.0
 
 PKG_SPECS = '''
 import os
@@ -44,8 +47,8 @@ def note(name):
 
 class Specs(SpecSet):
     alpha = RegistryPoint()
-    alpha_x = RegistryPoint()
-    beta = RegistryPoint(multi_output=True)
+    alpha_x = RegistryPoint(prio=-7)                    # its sub-graph is dispatched last (get_subgraphs sorts by prio)
+    beta = RegistryPoint(multi_output=True, prio=9)     # ... and this one first
     gamma = RegistryPoint()
 
 
@@ -129,6 +132,11 @@ def split_events(case, events, comps):
 
 class Refused(RuntimeError):
     pass
+
+
+class Abort(Exception):
+    """the driver stops collect() before the run: the configuration phases left a component outside the universe
+    enabled (recorded as an event; nothing of the real system is collected)"""
 
 
 class World(object):
@@ -317,9 +325,14 @@ class Runner(object):
 
         wrap("apply_default_enabled", lambda r, a, k: runner.emit("default", enabled=runner.enabled_table()))
         wrap("apply_configs", lambda r, a, k: runner.emit("configs", enabled=runner.enabled_table()))
-        wrap("apply_blacklist", lambda r, a, k: runner.emit(
-            "blacklist", enabled=runner.enabled_table(), files=runner.deny_ids("f"), commands=runner.deny_ids("c"),
-            specs=sorted(set(blacklist.BLACKLISTED_SPECS))))
+        def after_blacklist(r, a, k):
+            runner.emit("blacklist", enabled=runner.enabled_table(), files=runner.deny_ids("f"),
+                        commands=runner.deny_ids("c"), specs=sorted(set(blacklist.BLACKLISTED_SPECS)))
+            foreign = sorted(dr.get_name(c) for c in dr.DELEGATES if c not in runner.cid and dr.is_enabled(c))
+            if foreign:
+                runner.emit("foreign_enabled", n=len(foreign), sample=foreign[:3])
+                raise Abort()
+        wrap("apply_blacklist", after_blacklist)
         wrap("create_context", lambda r, a, k: runner.emit(
             "context", cls=type(r).__name__, root_ok=(os.path.realpath(r.root) == runner.w.root)))
 
@@ -350,11 +363,17 @@ class Runner(object):
         def run_all(components=None, broker=None, pool=None):
             runner.cur["broker"] = broker
             runner.cur["pooled"] = pool is not None
-            try:
-                return orig_run_all(components=components, broker=broker, pool=pool)
-            finally:
-                runner.ran()
+            return orig_run_all(components=components, broker=broker, pool=pool)
         dr.run_all = run_all
+
+        # the run is over when collect() turns to the broker's exceptions (the pool has been shut down by then);
+        # should that call disappear, run_case records the end of the run when collect() returns
+        orig_parse = C._parse_broker_exceptions
+
+        def parse(*a, **k):
+            runner.ran()
+            return orig_parse(*a, **k)
+        C._parse_broker_exceptions = parse
 
     # ---- R4: the model's tables against the real package ----
     def universe_check(self):
@@ -423,12 +442,26 @@ class Runner(object):
         kw["ev"] = ev
         with self.lock:
             self.events.append(kw)
-            self.progress()
+            self.last_emit = time.time()
 
-    def progress(self):
-        if self.cur.get("progress"):
-            with open(self.cur["progress"], "w") as f:
-                json.dump(self.events, f)
+    def watchdog(self, case, on_hang):
+        """for the cases whose outcome may be 'collect() never returns' (R7): when nothing has been recorded for
+        QUIET seconds while collect() is still running, the events so far + a 'hung' event are written out and the
+        process ends itself.  Quiescence is measured inside the process, after the imports, so a loaded machine
+        does not turn a slow run into a hang."""
+        while not self.cur.get("finished"):
+            time.sleep(0.25)
+            with self.lock:
+                quiet = time.time() - self.last_emit
+                if quiet > QUIET and not self.cur.get("finished"):
+                    events = list(self.events) + [dict(ev="hung", quiet_s=QUIET)]
+                    traces = split_events(case, events, sorted(self.names))
+                    for t in traces:
+                        if any(e["ev"] == "hung" for e in t["events"]):
+                            t["events"] = [e for e in t["events"] if e["ev"] != "end"]
+                    self.stats["hung"] += 1
+                    on_hang(traces)
+                    os._exit(0)
 
     def attempted(self, c, broker):
         if c not in self.cid:
@@ -440,6 +473,9 @@ class Runner(object):
                   errs=sorted(set(exc_kind(e) for e in broker.exceptions.get(c, []))), pers=pers)
 
     def ran(self):
+        if self.cur.get("ran_done") or self.cur.get("broker") is None:
+            return
+        self.cur["ran_done"] = True
         opened, execs = self.audit.opened, self.audit.execs
         with open(self.w.log) as f:
             bodies = sorted(set(f.read().split()))
@@ -604,11 +640,14 @@ class Runner(object):
             how, (loaded, foreign) = load(top)
         return t, dict(ev="load", how=how, loaded=loaded, foreign=foreign)
 
-    def run_case(self, case, progress=""):
+    def run_case(self, case, on_hang=None):
         self.reset(case)
         doc, rm_conf = self.manifest(case)
         self.events = []
-        self.cur = dict(dehy=set(), broker=None, progress=progress)
+        self.last_emit = time.time()
+        self.cur = dict(dehy=set(), broker=None)
+        if case.get("hang") and on_hang:
+            threading.Thread(target=self.watchdog, args=(case, on_hang), daemon=True).start()
         n = self.stats["cases"]
         self.stats["cases"] += 1
         tmp = os.path.join(self.w.out, "c%d" % n)
@@ -619,15 +658,20 @@ class Runner(object):
             try:
                 path, errors = self.C.collect(manifest=doc, tmp_path=tmp, archive_name="arch", rm_conf=rm_conf,
                                               compress=case["mf"]["compress"])
+                self.ran()
             finally:
                 self.audit.stop()
-        except Refused:
-            raise
+                self.cur["finished"] = True
+        except Abort:
+            escaped = "aborted"
+            self.stats["aborted"] += 1
         except Exception as ex:
             escaped = ex
             self.emit("escaped", exc=type(ex).__name__, msg=str(ex)[:200], tb=traceback.format_exc()[-1500:])
-        if self.audit.refused:
-            raise Refused("refused commands: %r" % (self.audit.refused[:3],))
+        if self.audit.refused:          # refused by the audit hook before they ran: an observation, not a crash
+            self.emit("foreign_exec", n=len(self.audit.refused), sample=[" ".join(a) for a in self.audit.refused[:3]])
+            self.audit.refused = []
+            self.stats["refused"] += 1
         if escaped is None:
             workdir = os.path.join(tmp, "x")
             os.makedirs(workdir)
@@ -666,12 +710,15 @@ def main():
     os.chdir(world.base)
     runner = Runner(world, req.get("seed", 0))
     traces = []
+
+    def write(extra=()):
+        with open(sys.argv[2], "w") as f:
+            json.dump(dict(traces=traces + list(extra), stats=dict(runner.stats), r4=runner.r4), f, separators=(",", ":"))
+
     if not runner.r4:
         for case in req["cases"]:
-            traces.extend(runner.run_case(case, req.get("progress", "")))
-    stats = dict(runner.stats)
-    with open(sys.argv[2], "w") as f:
-        json.dump(dict(traces=traces, stats=stats, r4=runner.r4), f, separators=(",", ":"))
+            traces.extend(runner.run_case(case, on_hang=write))
+    write()
     shutil.rmtree(world.base, True)
 
 
